@@ -133,7 +133,7 @@ def run(pid, tier, seed):
         e.update(env)
         e["ADDR_FAIL_PATH"] = os.path.join(root, "fail-%d.txt" % i)
         e["ASAN_OPTIONS"] = "detect_leaks=0:abort_on_error=0"
-        procs.append((label, e["ADDR_FAIL_PATH"], subprocess.Popen([binary] + tail, stdout=subprocess.PIPE, stderr=subprocess.PIPE, env=e)))
+        procs.append((label, e["ADDR_FAIL_PATH"], vc.Proc([binary] + tail, env=e)))
     fprocs = []
     if fuzz:
         for i in range(fuzz["procs"]):
@@ -147,9 +147,8 @@ def run(pid, tier, seed):
             e = dict(os.environ)
             e["ASAN_OPTIONS"] = "detect_leaks=0"
             fs = (seed * 101 + i * 13 + 1) % 2 ** 31 or 1
-            fprocs.append((art, subprocess.Popen([fuzzbin, "-runs=%d" % fuzz["runs"], "-max_len=48", "-seed=%d" % fs, "-artifact_prefix=" + art,
-                                                  "-print_final_stats=1", "-timeout=20", corp],
-                                                 stdout=subprocess.PIPE, stderr=subprocess.PIPE, env=e)))
+            fprocs.append((art, vc.Proc([fuzzbin, "-runs=%d" % fuzz["runs"], "-max_len=48", "-seed=%d" % fs, "-artifact_prefix=" + art,
+                                         "-print_final_stats=1", "-timeout=20", corp], env=e)))
     tot_cases = tot_nt = 0
     classes = {}
     samples = []
